@@ -61,6 +61,12 @@ def defect(cls, kind, base_arr, mag, k):
     n = {"SO2": 2, "SE2": 2, "SO3": 3, "SE3": 3}.get(cls)
     if kind == "valid":
         return a
+    if kind == "rotation-2x2":
+        return gamma.rotz(0.3 + 0.1 * k)[:2, :2]
+    if kind == "rotation-4x4":
+        T = np.eye(4)
+        T[:3, :3] = a[:3, :3]
+        return T
     if cls in ("SO2", "SE2", "SO3", "SE3"):
         if kind in ("near", "nonorth"):
             i, jx = divmod(k % (n * n), n)
@@ -140,6 +146,9 @@ def construct_case(j, e, rng):
     mcls = cls
     if cls == "UnitQuaternion(R)":          # unit quaternion built from a 3x3 matrix: items are SO3-like
         cls, mcls = "UnitQuaternion", "SO3"
+    ctor = C.get(cls)
+    if cls == "SE3.SO3(R)":                 # SE3.SO3(R): a rotation lifted to a rigid motion
+        cls, mcls, ctor = "SE3", "SO3", SE3.SO3
     mem = members(mcls, rng)
     variants = []
     far_present = any(k not in ("valid", "near", "nonunit") for k in kinds)
@@ -151,19 +160,24 @@ def construct_case(j, e, rng):
             items = [defect(mcls, k, mem[(i + v) % len(mem)], mag, v + i + 3 * mi) for i, k in enumerate(kinds)]
             variants.append((mag, v, items))
     if far_present and cls in ("SO2", "SE2", "SO3", "SE3"):
-        variants += [(mag, v, [np.asarray(a, dtype=np.float32) for a in items]) for mag, v, items in variants]
+        base_variants = list(variants)
+        variants += [(mag, v, [np.asarray(a, dtype=np.float32) for a in items]) for mag, v, items in base_variants]
+        # ... and as object-dtype arrays of ordinary numbers
+        variants += [(mag, v, [np.asarray(a, dtype=object) for a in items]) for mag, v, items in base_variants[::2]]
     for mag, v, items in variants:
         arg = items[0] if form == "bare" else (list(items) if form == "list" else tuple(items))
         if form == "array":
             arg = np.array(items)
         f32 = any(np.asarray(a).dtype == np.float32 for a in items)
-        feat = "%s;%s;mag=%g%s" % (form, ",".join(kinds), mag, ";float32" if f32 else "")
+        if any(np.asarray(a).dtype == object for a in items):
+            f32 = "object"
+        feat = "%s;%s;mag=%g%s" % (form, ",".join(kinds), mag, ";float32" if f32 is True else ";object-dtype" if f32 else "")
         cid = (spec_cls, form, tuple(kinds), f32)
-        site = ("UnitQuaternion(3x3)" if spec_cls != cls else cls) + ".__init__"
+        site = {"UnitQuaternion(R)": "UnitQuaternion(3x3).__init__", "SE3.SO3(R)": "SE3.SO3"}.get(spec_cls, cls + ".__init__")
         detail = {"kind": "construct", "cls": cls, "form": form, "kinds": kinds, "mag": mag, "variant": v,
                   "items": [np.asarray(x).tolist() for x in items]}
         try:
-            obj = C[cls](arg)
+            obj = ctor(arg)
             raised = None
         except Exception as ex:  # noqa: BLE001
             obj, raised = None, type(ex).__name__
@@ -182,6 +196,13 @@ def construct_case(j, e, rng):
             if raised is not None:
                 j.fail("%s|%s|%s|rejected-valid-%s" % (PID, site, feat, raised), detail, cid)
             else:
+                if spec_cls == "SE3.SO3(R)":        # stored as the 4x4 matrix with that rotation block
+                    lifted = []
+                    for a in items:
+                        T = np.eye(4)
+                        T[:3, :3] = a
+                        lifted.append(T)
+                    items = lifted
                 bad = holds_only_members(cls, obj, items)
                 if bad:
                     j.fail("%s|%s|%s|%s" % (PID, site, feat, bad), detail, cid)
@@ -403,15 +424,20 @@ def predicate_case(j, e, rng):
     if expect == "false" and kind in ("nonorth", "scaled", "reflection", "lastrow"):
         # the same far arrays in SINGLE precision (the distance from the group is a property of the values, not of
         # the element type): still rejected
-        args += [(np.asarray(a, dtype=np.float32), mg) for a, mg in args if np.asarray(a).dtype.kind == "f"]
+        fl = [(a, mg) for a, mg in args if np.asarray(a).dtype.kind == "f"]
+        args += [(np.asarray(a, dtype=np.float32), mg) for a, mg in fl]
+        args += [(np.asarray(a, dtype=object), mg) for a, mg in fl[::2]]
     for arg, mag in args:
         cid = (pred, kind, str(np.asarray(arg).dtype))
-        feat = "%s;mag=%g%s" % (kind, mag, ";float32" if np.asarray(arg).dtype == np.float32 else "")
+        feat = "%s;mag=%g%s" % (kind, mag, ";float32" if np.asarray(arg).dtype == np.float32 else ";object-dtype" if np.asarray(arg).dtype == object else "")
         detail = {"kind": "predicate", "pred": pred, "argkind": kind, "mag": mag,
                   "arg": np.asarray(arg).tolist()}
         try:
             r = fns[pred](arg)
         except Exception as ex:  # noqa: BLE001
+            if np.asarray(arg).dtype == object and expect == "false":
+                j.ok(cid)            # an object-dtype array may be refused by an exception instead of False
+                continue
             if expect == "dontcare":
                 j.skip("don't-care band")
                 continue
